@@ -66,6 +66,13 @@ def run(prop, quick=(8, 40), thorough=(16, 500), extra=None, require=(), maxstmt
                 if fa[0] != fb[0]:
                     R.violation("trace-differs-between-interpreters", "the same program emits different constraint systems in two interpreters (hash seeds, inputs %s vs %s; %d vs %d events)" % (
                         fa[2], fb[2], fa[1], fb[1]), src=(a.get("sources") or [None] * (i + 1))[i], inputs_a=fa[2], inputs_b=fb[2])
+    if prop == "C01":
+        fam = [dict(seed="%d/C01/handled/%d" % (common.seed(), s), n=2500 if tier == "quick" else 20000) for s in range(2 if tier == "quick" else 8)]
+        for job, res, err in shard.run_jobs("vf.progwork", "handled_refusals", fam, timeout=1800):
+            if err:
+                R.inconc("handled-refusal family: %s" % err[-300:])
+            else:
+                R.merge(res[prop])
     if prop in ("C01", "C04"):
         fam = [dict(seed="%d/%s/foreign/%d" % (common.seed(), prop, s), props=[prop], n=3000) for s in range(2 if tier == "quick" else 8)]
         for job, res, err in shard.run_jobs("vf.progwork", "foreign_operands", fam, timeout=1800):
